@@ -208,6 +208,10 @@ def packet_encode_table(F, enum_path):
     table = {}
     for arm in m["arms"]:
         vs = arm_variants(arm)
+        if arm.get("guard"):
+            raise AnchorLost("%s: the arm for %s is guarded (%s): packet-level encoding then has a second path for that "
+                             "packet type that bypasses the body's Encodable::encode / encode_len" % (
+                                 fid, [v for v, _ in vs], pp(unblock(arm["guard"]))[:100]))
         body = arm["body"]
         info = {"arm": arm, "fid": fid}
         calls = [n for n in walk_all(body) if n.get("k") == "Call"]
